@@ -96,6 +96,12 @@ def cases(tier, seed):
     for i in range(len(LONG_SPECS)):
         for cls in U.PLAIN_CLASSES + U.RECORD_CLASSES:
             yield {"kind": "content", "cls": cls, "long": i}
+    # the SAME path read again after it was rewritten (same byte size, other line boundaries; other size): each object describes the
+    # file as it is when the object is created - nothing about an earlier file under that path may be remembered
+    for cls in U.PLAIN_CLASSES:
+        for hist in (["alpha\nbeta\n\n", "al\npha\nbeta\n", "alphabetagam"], ["a\nb\n", "ab\n\n", "\n\nab"], ["x\ny\nz\n", "x\ny\n", "x\ny\nz\n"],
+                     ["one\ntwo\n", "on\ne\ntwo", "one\ntwo\n"]):
+            yield {"kind": "rewrite", "cls": cls, "history": hist}
     # regression scenarios of DESIGN §7 F8 (explicit, also covered by the enumeration)
     for cls in U.PLAIN_CLASSES:
         yield {"kind": "content", "cls": cls, "content": "a\rb\nčř\n\nlast"}
@@ -304,7 +310,28 @@ def _run_schedule(case):
     return {"ok": True, "trivial": n == 0, "scenario": "lines/interleave", "expected": None, "observed": None}
 
 
+def _run_rewrite(case):
+    cls = case["cls"]
+    with U.Scratch() as sc:
+        for step, content in enumerate(case["history"]):
+            if content == "" and U.is_mmap(cls):
+                continue
+            path = sc.write("same.txt", content.encode("utf-8"))
+            exp = U.ref_lines(content)
+            try:
+                with U.open_line_file(cls, path, None) as f:
+                    bad = _check_open_object(cls, f, exp)
+            except Exception as ex:  # noqa
+                bad = ("lines/exception", "no exception", "%s: %s" % (type(ex).__name__, ex))
+            if bad is not None:
+                return _fail("lines/same-path-rewritten", case, {"step": step, "content": content, "expected": bad[1]},
+                             {"check": bad[0], "observed": bad[2]})
+    return {"ok": True, "trivial": False, "scenario": "lines/same-path-rewritten", "expected": None, "observed": None}
+
+
 def run_case(case):
+    if case["kind"] == "rewrite":
+        return _run_rewrite(case)
     if case["kind"] == "content":
         return _run_content(case)
     if case["kind"] == "schedule":
